@@ -1017,6 +1017,11 @@ def fontres_first_bad(doc: Dict[str, Any], caching: bool) -> Optional[Tuple[int,
     except Exception as e:  # noqa: BLE001
         return (-1, -1, (-1, "exception", "pages", "EXC:" + type(e).__name__))
     for pi, (pg, r) in enumerate(zip(doc["pages"], res)):
+        if any(font_tie_only(doc["fonts"][fi]) for fi, _ in pg["slots"]):
+            # a font whose embedded header is malformed on purpose and is actually read: exactly as in the direct-font
+            # groups (`font_first_bad`) there is no property oracle - construction may raise (theorem odd_dict_raises)
+            # and then the whole page raises; such pages are not judged
+            continue
         if isinstance(r, str):
             return (pi, -1, (-1, "exception" if r.startswith("EXC") else "count", "256 glyphs per font", r))
         for k, (fi, _inline) in enumerate(pg["slots"]):
@@ -1045,6 +1050,11 @@ def gen_fontres_doc(rng) -> Tuple[Dict[str, Any], List[str]]:
                     kinds.append("fontres:same-encoding")
                 if rng.random() < 0.3:
                     fs["widths"], fs["fc"] = o["widths"], o["fc"]
+        if font_tie_only(fs):
+            # sharing BaseFont / Encoding can turn a header that was not read (standard-14 name, Encoding entry) into one
+            # that is read: re-check, as the direct-font groups judge
+            kinds.append("fontres:tie-only-after-sharing-dropped")
+            continue
         fonts.append(fs)
     pages = []
     for _ in range(rng.randint(1, 3)):
